@@ -38,7 +38,7 @@ def emphasis(prop, rnd):
 
 def gen_runs(prop, tier, seed):
     rnd = random.Random(seed * 9973 + PROPS.index(prop))
-    n_prog = {"quick": 80, "thorough": 600}[tier]
+    n_prog = {"quick": 120, "thorough": 1500}[tier]
     runs = []
     for k in range(n_prog):
         prog = progs.gen_program(rnd, f"p{k}", roots=2 if rnd.random() < 0.15 else 1)
@@ -63,7 +63,7 @@ def c13_overlap_runs(tier, seed):
     before them."""
     rnd = random.Random(seed + 1313)
     runs = []
-    for k in range(70 if tier == "quick" else 600):
+    for k in range(100 if tier == "quick" else 1500):
         prog = progs.gen_program(rnd, f"ov{k}")
         paths = [p for p in display_paths(prog) if all(c in progs.SAFE for c in p)]
         if len(paths) < 2:
@@ -107,7 +107,7 @@ def c16_collision_runs(tier, seed):
     (kind / name / location in the documented order) decide."""
     rnd = random.Random(seed + 1616)
     runs = []
-    n = 60 if tier == "quick" else 600
+    n = 100 if tier == "quick" else 1500
     for k in range(n):
         line = [0]
         def loc():
@@ -168,7 +168,7 @@ def c15_matrix_runs(tier, seed):
     flags = {"sample_count": "sample-count", "sample_size": "sample-size", "threads": "threads",
              "min_time_ns": "min-time", "max_time_ns": "max-time", "skip_ext_time": "skip-ext-time"}
     runs = []
-    n = 160 if tier == "quick" else 1600
+    n = 240 if tier == "quick" else 4000
     for k in range(n):
         field = rnd.choice(list(values))
         def pick():
@@ -469,7 +469,7 @@ def run(prop, tier, seed):
 
     if prop == "C14" and not res.violations:
         rnd = random.Random(seed + 77)
-        rt = exact_roundtrip_runs(recs, by_name, rnd, 40 if tier == "quick" else 400)
+        rt = exact_roundtrip_runs(recs, by_name, rnd, 60 if tier == "quick" else 1000)
         by_name.update({name: (prog, cfg) for prog, cfg, name in rt})
         if rt:
             p2, recs2 = execute(rt, f"{prop}.exact")
